@@ -214,29 +214,45 @@ Theorem C38_compact_gather_separable :
 Proof. exact compact_gather_separable. Qed.
 Print Assumptions C38_compact_gather_separable.
 
-(* ---- tolerances: with nv := nvmax_pad and tolerance := tol * nv / nvmax_pad the termination tests
-        of the compact solve are those of the full solve (over R; _rescale regenerated from solver.py) ---- *)
+(* ---- tolerances (solve_compact rescales the CURRENT m.opt.tolerance per world, ls_tolerance untouched):
+        with nv := nvmax_pad and tolerance := compact_tolerance tol nv nvmax_pad = tol * (nv / nvmax_pad)
+        the termination tests of the compact solve are those of the full solve
+        (over R; _rescale regenerated from solver.py) ---- *)
 Theorem C38_compact_tolerance_equiv :
   forall (nv nvp : Z) (mi value tol : R), (0 < nv)%Z -> (0 < nvp)%Z -> 0 < mi ->
-  (sltb (_rescale nvp mi value) (tol * (IZR nv / IZR nvp)) = true <-> sltb (_rescale nv mi value) tol = true).
+  (sltb (_rescale nvp mi value) (compact_tolerance tol nv nvp) = true <-> sltb (_rescale nv mi value) tol = true).
 Proof. exact compact_tolerance_equiv. Qed.
 Print Assumptions C38_compact_tolerance_equiv.
 
-(* the linesearch gradient tolerance is NOT preserved: both factors are rescaled, the result is
-   (nv / nvmax_pad) times the full solve's (exact relation, and a witness that they differ) *)
-Theorem C38_compact_ls_gtol_scaled :
+(* ... and so is the linesearch gradient tolerance max(tol * ls_tol * snorm * meaninertia * nv, 1e-6) *)
+Theorem C38_compact_ls_gtol_equiv :
   forall (nv nvp : Z) (mi tol lstol snorm : R), (0 < nvp)%Z ->
-  ls_gtol_raw nvp mi (tol * (IZR nv / IZR nvp)) (lstol * (IZR nv / IZR nvp)) snorm
-  = IZR nv / IZR nvp * ls_gtol_raw nv mi tol lstol snorm.
-Proof. exact compact_ls_gtol_scaled. Qed.
-Print Assumptions C38_compact_ls_gtol_scaled.
+  ls_gtol nvp mi (compact_tolerance tol nv nvp) lstol snorm = ls_gtol nv mi tol lstol snorm.
+Proof. exact compact_ls_gtol_equiv. Qed.
+Print Assumptions C38_compact_ls_gtol_equiv.
 
-Theorem C38_compact_ls_gtol_equiv_refuted :
+(* regression witness (the repaired defect): rescaling ls_tolerance as well would break that equality *)
+Theorem C38_ls_tolerance_must_not_be_rescaled :
   exists (nv nvp : Z) (mi tol lstol snorm : R),
   (0 < nv)%Z /\ nvp = nvmax_pad nv /\ 0 < mi /\
-  ls_gtol_raw nvp mi (tol * (IZR nv / IZR nvp)) (lstol * (IZR nv / IZR nvp)) snorm <> ls_gtol_raw nv mi tol lstol snorm.
-Proof. exact compact_ls_gtol_equiv_refuted. Qed.
-Print Assumptions C38_compact_ls_gtol_equiv_refuted.
+  ls_gtol nvp mi (compact_tolerance tol nv nvp) (compact_tolerance lstol nv nvp) snorm <> ls_gtol nv mi tol lstol snorm.
+Proof. exact ls_tolerance_must_not_be_rescaled. Qed.
+Print Assumptions C38_ls_tolerance_must_not_be_rescaled.
+
+(* ---- a world without constraint rows over a sparse full model: with the flag _solve passes
+        (m.is_sparse or _sparse_compact(ctx)) the compacted qfrc_constraint workspace (wp.empty) is
+        overwritten with zeros whatever it held; with the shadow model's own flag it would survive ---- *)
+Theorem C38_nefc0_workspace_overwritten :
+  forall (T : Type) (zero : T) warmstart (ws sm garbage : list T) i d, (i < length garbage)%nat ->
+  nth i (snd (solve_init_dof zero warmstart (init_dof_sparse_flag false true) 0 ws sm garbage)) d = zero.
+Proof. exact (@nefc0_workspace_overwritten). Qed.
+Print Assumptions C38_nefc0_workspace_overwritten.
+
+Theorem C38_nefc0_dense_flag_keeps_workspace :
+  forall (T : Type) (zero : T) warmstart (ws sm garbage : list T),
+  snd (solve_init_dof zero warmstart false 0 ws sm garbage) = garbage.
+Proof. exact (@nefc0_dense_flag_keeps_workspace). Qed.
+Print Assumptions C38_nefc0_dense_flag_keeps_workspace.
 
 (* non-vacuity: the tree tables of a 4-tree model satisfy wf_trees / tile_trees; maps with tree 1 asleep *)
 Example C38_example :
